@@ -378,6 +378,10 @@ class Interp(object):
         for t in s.targets:
             self.assign(t, v, s)
 
+    def st_AnnAssign(self, s):
+        if s.value is not None:
+            self.assign(s.target, self.eval(s.value), s)
+
     def st_AugAssign(self, s):
         load = ast.copy_location(_as_load(s.target), s.target)
         cur = self.eval(load)
